@@ -368,4 +368,22 @@ theorem stale_redo_counterexample :
                Event.mut 4 1 11, Event.ack]
     recover (crashKill es 6) 4 1 = 10 ∧ (run {} es).vol 4 1 = 11 := by decide
 
+/-- What the final `wal.sync()` of a commit buys (the chunked commit path
+`execute_chunked_wal_commit` writes its frames with `write_frames_batch_no_sync` and relies on ONE
+sync at the end): if a commit acknowledges without it, its frames are still in the user-space
+buffer.  After a power loss the acknowledged image is gone; and because an OLDER frame of the same
+page is already in the WAL file, even a plain process kill recovers the older image over the newer
+page (redo of a stale frame). -/
+theorem unsynced_commit_counterexample :
+    let es := [Event.mut 1 1 9, Event.walWrite 1 1 9, Event.walSync, Event.ack,
+               Event.mut 1 1 10, Event.walWrite 1 1 10, Event.ack]
+    (run {} es).vol 1 1 = 10 ∧ recover (crashPower es 7) 1 1 = 9 ∧ recover (crashKill es 7) 1 1 = 9 := by
+  decide
+
+/-- with the sync in place the same history is durable under both crash models -/
+theorem synced_commit_same_history :
+    let es := [Event.mut 1 1 9, Event.walWrite 1 1 9, Event.walSync, Event.ack,
+               Event.mut 1 1 10, Event.walWrite 1 1 10, Event.walSync, Event.ack]
+    recover (crashPower es 8) 1 1 = 10 ∧ recover (crashKill es 8) 1 1 = 10 := by decide
+
 end TurVerif.C01
